@@ -176,8 +176,8 @@ class SystemClock(Clock, metaclass=MetaSystemClock):
     @classmethod
     def _sched_add(cls, secs, task):
         # Call with acquired lock.
-        if secs == float('inf'):
-            return  # A task returning inf is never rescheduled (as sched).
+        if secs == float('inf') or secs != secs:
+            return  # A task returning inf (or nan) is never rescheduled (as sched).
         if cls._task_queue.empty():
             prev_time = -1e10
         else:
@@ -336,8 +336,8 @@ class Scheduler():
         self.sched(0, task)
 
     def _sched_add(self, delta, item):
-        if delta == float('inf'):
-            return  # A task returning inf is never rescheduled (as sched).
+        if delta == float('inf') or delta != delta:
+            return  # A task returning inf (or nan) is never rescheduled (as sched).
         if self._drift:
             from_time = _libsc3.main.elapsed_time()
         else:
@@ -578,7 +578,7 @@ class ClockTask():
             beats = self.clock.secs2beats(time)
             delta = self.task.__awake__(self.clock)
             if isinstance(delta, (int, float)) and not isinstance(delta, bool):
-                if beats + delta == float('inf'):
+                if beats + delta == float('inf') or delta != delta:
                     return  # Never rescheduled (as sched and the rt clocks).
                 self.beats = beats + delta
                 self.scheduler.add(self.clock.beats2secs(self.beats), self)
@@ -1089,8 +1089,8 @@ class TempoClock(Clock, metaclass=MetaTempoClock):
 
     def _sched_add(self, beats, task):
         # Call with acquired lock.
-        if beats == float('inf'):
-            return  # A task returning inf is never rescheduled (as sched).
+        if beats == float('inf') or beats != beats:
+            return  # A task returning inf (or nan) is never rescheduled (as sched).
         if self._task_queue.empty():
             prev_beat = -1e10
         else:
